@@ -5,7 +5,7 @@ CHECKS = {
    technique='symbolic execution of the real LogicSim on z3 bit-vector lanes + SMT equivalence with an independent netlist oracle',
    text='For every circuit of a stated corpus (all 33 primitives x pin patterns, hand-made shapes, seeded random DAGs, repo netlists; three structural styles) the real '
         's_to_c/c_prop (both 2-valued copies)/c_to_s/cycle run once on symbolic bit lanes, so z3 decides "captured value = gate-by-gate netlist value" for ALL stimuli of all lanes, '
-        'batch sizes {1,3,8,9,17} and cycle counts <= 3. Circuit structure is enumerated, not symbolic - a bounded claim, which is the reachable level for object-graph code.',
+        'batch sizes {1,3,8,9,17}, cycle counts <= 3, default options and c_reuse+strip_forks. Circuit structure is enumerated, not symbolic - a bounded claim, which is the reachable level for object-graph code.',
    note='Trusted: oracle vlib/ref2.py, z3, numpy object-array dispatch. Bounds: corpus sizes/limits in evidence; explicitly sized kinds with trailing open pins excluded; cycles <= 3.'),
  'C02': dict(engine='E1-lanes', category='model_checking', design_ref='DESIGN.md §2.1, §2.5, §5 C02',
    technique='symbolic execution of the real LogicSim (m=4, m=8) on z3 bit-vector planes + SMT equivalence with the documented algebra and X-soundness queries',
@@ -37,8 +37,8 @@ CHECKS = {
  'C03': dict(engine='E2-symx', category='model_checking', design_ref='DESIGN.md §3, §4, §5 C03',
    technique='forking symbolic execution (z3, real arithmetic) of the real _wave_eval / s_to_c / whole WaveSim runs; kernel lemmas L-WF + L-BOOL as inductive step; QF_FP float lemmas; float32 replay of every path',
    text='Every feasible path of one call of the real waveform kernel on arbitrary well-formed operand waveforms (symbolic times, 4 symbolic delays per line, capacities that force the overflow branch) is explored and z3/'
-        'the path structure decide: output well-formed inside its region, starts at LUT(initial values), ends (parity) at LUT(final values) - for all 33 primitives. Boundary lemma for s_to_c (CPU and GPU kernel) and end-to-end '
-        'runs through the public API on small circuits close the induction over the op list, which itself is a paper argument.',
+        'the path structure decide: output well-formed inside its region, starts at LUT(initial values), ends (parity) at LUT(final values) - for all 33 primitives. Boundary lemma for s_to_c (CPU and GPU kernel), the schedule / memory-map glue obligations (E3 queries of C07/C08 on a reduced corpus) and end-to-end '
+        'runs through the public API (incl. per-line capacities with stripped forks) close the induction over the op list, which itself is a paper argument.',
    note='Bounded: K transitions per input by arity, caps {4,8,16}, times/delays real in bounded ranges, float32 modelled exactly on a dyadic grid (lemmas F1-F3). Lifting to all circuits is a paper induction (DESIGN §4) relying on C07/C08.'),
  'C04': dict(engine='E2-symx', category='model_checking', design_ref='DESIGN.md §4, §5 C04',
    technique='forking symbolic execution of the real _wave_eval with product runs (t vs t+delta, x2, x1/2); z3 validity of window membership, exact shift/scale, strict monotonicity per path; STA windows end-to-end',
@@ -49,7 +49,7 @@ CHECKS = {
    technique='forking symbolic execution of the real _wave_eval against the result of the real LogicSim(m=8) for every abstract input tuple the stimulus shape conforms to; end-to-end runs of both simulators',
    text='For every primitive and every abstract input tuple over {0,1,R,F,P,N} (within the K bound) all paths of the real kernel with symbolic times/delays are explored: initial/final values agree with the 8-valued result and a '
         'plain 0/1 result implies no transition at all. End-to-end: small circuits, stimuli over {0,1,R,F}, WaveSim and WaveSimCuda, options default / c_reuse / c_reuse+strip_forks.',
-   note='Bounded as C03. The gate-by-gate lifting (conformance is preserved) is a paper induction confirmed end-to-end.'),
+   note='Bounded as C03. The gate-by-gate lifting (conformance is preserved) is a paper induction confirmed end-to-end; the schedule / memory-map glue obligations it relies on are re-discharged in this check.'),
  'C13': dict(engine='E2-symx', category='model_checking', design_ref='DESIGN.md §4 L-OVL/L-WSA, §5 C13',
    technique='forking symbolic execution of the real wave_capture_cpu/gpu (via c_to_s with symbolic capture time), of _wave_eval in product with capacity 64, and of propagation with symbolic integer accumulation weights',
    text='All paths: capture results equal what a well-formed waveform with <= 3/4 symbolic entries encodes (initial, earliest, latest, final, value before T, overflow mark) for CPU and GPU kernels; returned rise/fall counts equal '
@@ -70,7 +70,7 @@ CHECKS = {
  'C06': dict(engine='E1-lanes + E2-symx', category='model_checking', design_ref='DESIGN.md §5 C06',
    technique='LogicSim: symbolic runs of the real simulator under each option setting, z3 term equality, lane non-interference with a symbolic lane index; WaveSim: forking product runs through the public API on shared symbolic delays/times',
    text='LogicSim (m=2/4/8): for every corpus circuit the captured terms of all four (c_reuse, strip_forks) settings and two batch sizes are proved equal for all stimuli, and a lane is proved independent of all other lanes. '
-        'WaveSim/WaveSimCuda: product runs with all delays and times symbolic prove identical s[3..7], s[10] (symbolic capture time), identical signal memory without reuse, identical state transfer, independence of batch size, '
+        'WaveSim/WaveSimCuda: product runs with all delays and times symbolic prove identical s[3..7], s[10] (symbolic capture time), identical signal memory without reuse, identical state transfer, independence of batch size, exhaustive thread-grid coverage of the mock launcher, '
         'lane position and c_prop(sims=k), and dataset selection by seed (mode 0) or per lane (mode 1) = that dataset alone.',
    note='Delay selection mode 2 (pseudo-random per gate) and sd > 0 outside the claim. WaveSim part on circuits with <= 3 gates and one transition per input. Structure enumerated.'),
  'C15': dict(engine='E2-symx', category='model_checking', design_ref='DESIGN.md §2.4, §5 C15',
